@@ -1494,10 +1494,41 @@ def _dft_rows(a, inverse, axis):
     from . import dft
     rows = moved.reshape(-1, N)
     out = _obj(rows.shape)
+    c = ctx() if have_ctx() else None
+    if c is not None and c.limits.get('max_fft_calls'):
+        c.fft_calls = getattr(c, 'fft_calls', 0) + 1
+        if c.fft_calls > c.limits['max_fft_calls']:
+            c.cuts = getattr(c, 'cuts', 0) + 1
+            event('cut', f"more than {c.limits['max_fft_calls']} fft/ifft calls on this path")
+            raise core.PathAbort('cut: fft call budget of the bounded unrolling exhausted')
+    contract = c is not None and c.mode != 'concrete' and c.limits.get('fft_mode') == 'contract'
+    io_in, io_out = [], []
+    event('fft', (inverse, N))
     for r in range(rows.shape[0]):
-        res = dft.dft([C.of(v) for v in rows[r]], inverse)
+        xs = [C.of(v) for v in rows[r]]
+        if contract:
+            # contract-mode transform (DESIGN §1.8): fresh outputs carrying Parseval only; the contract itself is
+            # an obligation proved against the exact DFT for every N in the bound (C02)
+            k0 = c.fresh
+            res = [C(R(z3.Real(c.fresh_name('fftre'))), R(z3.Real(c.fresh_name('fftim')))) for _ in range(N)]
+            e_in = xs[0].abs2()
+            for v in xs[1:]:
+                e_in = e_in + v.abs2()
+            e_out = res[0].abs2()
+            for v in res[1:]:
+                e_out = e_out + v.abs2()
+            fact = (e_out * N == e_in) if inverse else (e_out == e_in * N)
+            if isinstance(fact, SB):
+                c.axioms.append(fact.t)
+            event('fft-contract', (inverse, N))
+        else:
+            res = dft.dft(xs, inverse)
         for k in range(N):
             out[r, k] = res[k]
+        io_in.append(xs)
+        io_out.append(list(res))
+    if contract:
+        event('fft-io', (inverse, io_in, io_out))
     out = _np.moveaxis(out.reshape(moved.shape), -1, ax)
     return ndarray(out.copy(), 'complex')
 
